@@ -229,8 +229,8 @@ def nlri_of_object(nlri: Any) -> tuple[str, str, str]:
     fam = f'{int(nlri.afi)}.{int(nlri.safi)}'
     plen = int(nlri.cidr.mask)
     pfx = bytes(nlri.cidr.pack_ip())[: (plen + 7) // 8].hex() or '-'
-    pi = nlri.path_info
-    pid = int.from_bytes(bytes(pi.pack_path()), 'big') if len(pi) else None
+    packed_pi = bytes(nlri.path_info.pack_path())  # b'' when ADD-PATH is not in use for the family
+    pid = int.from_bytes(packed_pi, 'big') if packed_pi else None
     labels_obj = getattr(nlri, 'labels', None)
     labels = list(labels_obj.labels) if labels_obj is not None and len(labels_obj) else []
     rd_obj = getattr(nlri, 'rd', None)
@@ -325,8 +325,8 @@ def report_of_json(m: dict, msg: Any) -> dict:
         for j in nlris:
             key, _ = nlri_of_json(fam, j, next(objs, None))
             rep['wd'].append(f'{fam[0]}.{fam[1]}/' + key.format('-'))
-    rep['ann'].sort()
-    rep['wd'].sort()
+    rep['ann'] = sorted(set(rep['ann']))
+    rep['wd'] = sorted(set(rep['wd']))
     return rep
 
 
@@ -346,7 +346,7 @@ def report_of_line(line: str) -> dict:
         return {'err': (int(ws[1]), int(ws[2]))}
     assert ws[0] == 'ok', line
     f = dict(w.split('=', 1) for w in ws[1:])
-    rep: dict = {'eor': None if f['eor'] == '-' else f['eor'], 'ann': [], 'wd': [], 'attrs': {}}
+    rep: dict = {'eor': None if f['eor'] == '-' else f['eor'], 'ann': [], 'wd': [], 'attrs': {}, 'raw': [] if f.get('raw', '-') == '-' else f['raw'].split('+')}
     rep['ann'] = sorted(set([] if f['ann'] == '-' else f['ann'].split('+')))
     rep['wd'] = sorted(set([] if f['wd'] == '-' else f['wd'].split('+')))
     for item in [] if f['attrs'] == '-' else f['attrs'].split(';'):
